@@ -345,6 +345,82 @@ def conditional(ctx, method="GET"):
         return False, "inv:cond", info
     return True, f"cond:{status}", None
 
+# ---- confinement of a static route (concrete targets chosen by the solver; the file system is real) --------
+STATIC_SEGMENTS = ["..", "%2e%2e", "%2E.", ".", "sub", "link_out", "link_file", "link_in", "secret.txt", "inner.txt",
+                   "file.txt", "", "%2f", "%5c..", "..%2f..", "outside", "%2e%2e%2foutside", "..\\outside"]
+
+
+def static_confinement(ctx, nseg=3, first=None):
+    """A request target assembled from solver-chosen segments is served by a real static route over a
+    real directory tree with symlinks: bytes of a file outside the root are never returned unless
+    follow_symlinks was enabled, and a directory index appears only with show_index."""
+    import asyncio
+    import logging
+    import os
+    import shutil
+    import tempfile
+
+    from aiohttp import web
+
+    from harness.vloop import MemTransport, VLoop, install
+
+    logging.disable(logging.CRITICAL)
+    loop = install(VLoop())
+    base = tempfile.mkdtemp(prefix="verif-c15-", dir="/var/tmp")
+    try:
+        root = os.path.join(base, "root")
+        os.makedirs(os.path.join(root, "sub"))
+        os.makedirs(os.path.join(base, "outside"))
+        open(os.path.join(root, "file.txt"), "wb").write(b"ROOT-FILE")
+        open(os.path.join(root, "sub", "inner.txt"), "wb").write(b"INNER-FILE")
+        open(os.path.join(base, "outside", "secret.txt"), "wb").write(b"SECRET-OUTSIDE")
+        os.symlink(os.path.join(base, "outside"), os.path.join(root, "link_out"))
+        os.symlink(os.path.join(base, "outside", "secret.txt"), os.path.join(root, "link_file"))
+        os.symlink(os.path.join(root, "sub"), os.path.join(root, "link_in"))
+        follow = ctx.flag("break_symlink_sandbox")
+        index = ctx.flag("show_index")
+        app = web.Application()
+        app.router.add_static("/static", root, break_symlink_sandbox=follow, show_index=index)
+        runner = web.AppRunner(app, handle_signals=False, access_log=None)
+        asyncio.Task(runner.setup(), loop=loop)
+        loop.run_ready()
+        proto = runner.server()
+        tr = MemTransport()
+        proto.connection_made(tr)
+        segs = [first] if first is not None else []
+        n = ctx.choice("nseg", nseg) + 1
+        while len(segs) < n:
+            segs.append(ctx.pick(f"s{len(segs)}", STATIC_SEGMENTS))
+        target = "/static/" + "/".join(segs)
+        proto.data_received(b"GET " + target.encode() + b" HTTP/1.1\r\nHost: site\r\n\r\n")
+        loop.run_ready()
+        loop.advance(0.1)
+        out = bytes(tr.out)
+        status = int(out.split(b" ")[1]) if out.startswith(b"HTTP/") else 0
+        body = out.split(b"\r\n\r\n", 1)[1] if b"\r\n\r\n" in out else b""
+        info = {"target": target, "follow_symlinks": follow, "show_index": index, "status": status,
+                "body": body[:120].decode("latin1")}
+        via_link = any(x.startswith("link_out") or x.startswith("link_file") for x in segs)
+        if b"SECRET-OUTSIDE" in body and not (follow and via_link):
+            info["key"] = "file-outside-root-served" + ("" if follow else ":follow_symlinks-off")
+            return False, "inv:static", info
+        if b"secret.txt" in body and b"Index of" in body and not (follow and via_link):
+            info["key"] = "directory-outside-root-listed"
+            return False, "inv:static", info
+        if b"Index of" in body and not index:
+            info["key"] = "directory-index-without-show_index"
+            return False, "inv:static", info
+        if status == 0:
+            info["key"] = "no-response-to-static-request"
+            return False, "inv:static", info
+        if status == 200 and body == b"ROOT-FILE":
+            return True, "static:file", None
+        if status == 200 and b"SECRET-OUTSIDE" in body:
+            return True, "static:followed-link", None
+        return True, f"static:{status}", None
+    finally:
+        shutil.rmtree(base, ignore_errors=True)
+
 
 def twin(ctx):
     f, tag, info = range_arith(ctx, 1, 20)
@@ -368,6 +444,9 @@ def jobs(tier):
         out.append(dict(name=f"malformed-{n}", func="malformed", params=dict(n=n), limits=lim))
     for m in ("GET", "HEAD"):
         out.append(dict(name=f"conditional-{m}", func="conditional", params=dict(method=m), limits=lim))
+    for i, sg in enumerate(STATIC_SEGMENTS):
+        out.append(dict(name=f"static-{i}", func="static_confinement", params=dict(nseg=3 if quick else 4, first=sg),
+                        limits=lim))
     return out
 
 
@@ -375,7 +454,7 @@ def twins(tier):
     return [dict(name="twin", func="twin", params={}, limits={"time_limit": 30, "max_paths": 30})]
 
 
-REQUIRED_OUTCOMES = ("sat:206", "unsat:416", "invalid:416", "plain")
+REQUIRED_OUTCOMES = ("sat:206", "unsat:416", "invalid:416", "plain", "cond:304", "cond:412", "cond:206", "static:file", "static:followed-link", "static:404")
 
 
 def bounds(tier):
